@@ -259,6 +259,11 @@ def e2e_cases(tier, seed):
     for i in range(6 if tier == 'quick' else 60):
         s, _ = modgen.generate(seed, 9000 + i, size=8)
         srcs.append(('modgen:%d' % i, s.encode()))
+    from vf.props import C14
+    for tag, b in C14.growers():
+        srcs.append(('grower:' + tag, b))
+    srcs.append(('boundary_nonascii', "x='\u00e9';True if 0in x else False".encode('utf-8')))
+    srcs.append(('boundary_nonascii2', "x='\u00e9'if 0in y else 1".encode('utf-8')))
     srcs.append(('tiny', b'x=1\n'))
     srcs.append(('empty', b''))
     srcs.append(('latin1', '# -*- coding: latin-1 -*-\nname = "caf\xe9 caf\xe9"\nprint(name)\n'.encode('latin-1')))
